@@ -213,6 +213,10 @@ func (s *Server) readListener(l net.Listener, am *allocation.Manager) {
 				defer cancel()
 				if err := tlsConn.HandshakeContext(ctx); err != nil {
 					s.log.Errorf("TLS handshake failed: %s", err)
+					// Nobody else will: the connection is about to be untracked.
+					if closeErr := conn.Close(); closeErr != nil && !errors.Is(closeErr, net.ErrClosed) {
+						s.log.Debugf("Failed to close conn: %s", closeErr)
+					}
 
 					return
 				}
